@@ -156,7 +156,9 @@ func hookText(fn, site, kind string, h *HookMeta, dstT, srcT string, extras []st
 
 // MisfitKinds are the hook shapes that cannot fit the method (C10, last sentence).
 var MisfitKinds = []string{"err-hook-on-noerr-method", "wrong-dst-type", "wrong-src-type", "extra-count-mismatch", "extra-type-mismatch", "non-error-result", "two-results", "one-param",
-	"extra-ptr-for-value", "extra-value-for-ptr", "extra-count-too-many", "dst-double-pointer", "src-slice", "extra-slice-for-value"}
+	"extra-ptr-for-value", "extra-value-for-ptr", "extra-count-too-many", "dst-double-pointer", "src-slice", "extra-slice-for-value",
+	// one hook named by two methods: it fits the first (by name) and not the second
+	"shared-hook-extra-count", "shared-hook-extra-type", "shared-hook-dst-type"}
 
 // Gen builds one gensim world. kind is "normal", "noerr" or "misfit".
 func Gen(r *sim.Rng, kind string) (*sim.WorldSpec, *Meta) {
@@ -253,7 +255,17 @@ func Gen(r *sim.Rng, kind string) (*sim.WorldSpec, *Meta) {
 	nMethods := r.Range(2, 5)
 	if kind == "misfit" {
 		nMethods = 1
+		if strings.HasPrefix(forcedMisfit, "shared-hook") {
+			nMethods = 2
+		}
 	}
+	type madeHook struct {
+		h      *HookMeta
+		which  string
+		local  bool
+		extras []string
+	}
+	var madeHooks []madeHook
 	var methods []MethodMeta
 	needSub := false
 	for mi := 0; mi < nMethods; mi++ {
@@ -395,6 +407,17 @@ func Gen(r *sim.Rng, kind string) (*sim.WorldSpec, *Meta) {
 		}
 		// hooks
 		mkHook := func(which string) *HookMeta {
+			// now and then a hook that an earlier method already uses is named
+			// again (one function serving several methods), when it fits
+			if r.Chance(1, 3) {
+				for _, mh := range madeHooks {
+					if mh.which == which && mh.local == mm.Local && (!mh.h.RetErr || mm.RetErr) &&
+						(!mh.h.Extras || strings.Join(mh.extras, ",") == strings.Join(mm.Extras, ",")) && (!mh.h.Imported || !mm.Local) {
+						c := *mh.h
+						return &c
+					}
+				}
+			}
 			h := &HookMeta{DstPtr: r.Chance(2, 3), SrcPtr: r.Bool(), RetErr: mm.RetErr && r.Chance(2, 3), Extras: len(mm.Extras) > 0 && r.Chance(2, 3)}
 			h.Imported = useHooksPkg && !mm.Local && r.Chance(1, 2)
 			fn := fmt.Sprintf("%s%s", map[string]string{"pre": "Pre", "post": "Post"}[which], mm.Name)
@@ -425,6 +448,7 @@ func Gen(r *sim.Rng, kind string) (*sim.WorldSpec, *Meta) {
 			} else {
 				localHooks.WriteString(text)
 			}
+			madeHooks = append(madeHooks, madeHook{h, which, mm.Local, mm.Extras})
 			return h
 		}
 		if kind != "noerr" && kind != "misfit" {
@@ -450,6 +474,31 @@ func Gen(r *sim.Rng, kind string) (*sim.WorldSpec, *Meta) {
 			}
 			meta.Kind = "misfit:" + mk
 			which := sim.Pick(r, []string{"pre", "post"})
+			if strings.HasPrefix(mk, "shared-hook") {
+				// F0 fits the hook, F1 (which sorts after it) does not
+				which = "post"
+				mm.RetErr, mm.Recv = false, ""
+				mm.Local = false
+				dstT, srcT = "md.D", "ms.S"
+				if mi == 0 {
+					mm.Extras = []string{"int", "string"}
+					fmt.Fprintf(&localHooks, "func BadShared(dst *md.D, src *ms.S, a0 int, a1 string) {\n}\n\n")
+				} else {
+					switch mk {
+					case "shared-hook-extra-count":
+						mm.Extras = []string{"int"}
+					case "shared-hook-extra-type":
+						mm.Extras = []string{"string", "int"}
+					case "shared-hook-dst-type":
+						mm.Extras = []string{"int", "string"}
+						mm.Local = true
+					}
+				}
+				notes = append(notes, ":postprocess BadShared")
+				mm.Notes = notes
+				methods = append(methods, mm)
+				continue
+			}
 			fn := "Bad" + mm.Name
 			note := map[string]string{"pre": ":preprocess ", "post": ":postprocess "}[which] + fn
 			d, s := "*"+dstT, "*"+srcT
